@@ -21,6 +21,11 @@ func init() { core.Register(c08{}) }
 
 func (c08) ID() string { return "C08" }
 
+// EvalFeatures names the counters of judged executions.
+func (c08) EvalFeatures() []string {
+	return []string{"tree-comparisons", "trace-comparisons", "k2-jumps"}
+}
+
 func (c08) Cases(tier string) int {
 	if tier == "thorough" {
 		return 25000
